@@ -144,6 +144,10 @@ type Exec struct {
 	errCount int
 	uniq     int
 	seals        []*sealRec
+	signs        []*signRec
+	verifies     []*signRec
+	nkeys        int
+	seqCounter   int
 	lockEvents   []lockEvent
 	atomicStores []Value
 	killed       bool
@@ -308,7 +312,11 @@ func (ex *Exec) concretize(t *Term, where string) uint64 {
 			ex.model = m
 			mv, ok2 := evalTerm(t, m, map[*Term]uint64{})
 			if !ok2 {
-				panic(abortPath{"unsupported", "cannot evaluate term with uninterpreted function when concretizing at " + where})
+				mv, ok2 = ex.solver.EvalIn(t)
+				ex.model = nil
+				if !ok2 {
+					panic(abortPath{"unsupported", "cannot evaluate term with uninterpreted function when concretizing at " + where})
+				}
 			}
 			v = mv
 		}
@@ -370,7 +378,11 @@ func (ex *Exec) pickOne(t *Term, where string) uint64 {
 		ex.model = m
 		mv, ok2 := evalTerm(t, m, map[*Term]uint64{})
 		if !ok2 {
-			panic(abortPath{"unsupported", "cannot evaluate term in pickOne at " + where})
+			mv, ok2 = ex.solver.EvalIn(t)
+			ex.model = nil
+			if !ok2 {
+				panic(abortPath{"unsupported", "cannot evaluate term in pickOne at " + where})
+			}
 		}
 		v = mv
 	}
